@@ -1,4 +1,5 @@
 import CkbVerif.Lemmas.Orphan
+import CkbVerif.Lemmas.OrphanExpire
 import CkbVerif.Lemmas.Skip
 import CkbVerif.Lemmas.Inflight
 import CkbVerif.Lemmas.HeaderMap
@@ -65,6 +66,16 @@ theorem release_exact {par : Nat → Nat} (hpar : ∀ i, par i ≠ i) {s : Pool}
         exact ⟨hb, fun hd => hl ((inv.leaders p).mpr ⟨hd.has_child, hp⟩)⟩
       · intro hb; exact hb.1
 
+/-- Expiry removes exactly the stored descendants of the leaders whose first child is older than
+`EXPIRED_EPOCH` epochs (all children of a leader share their epoch in well-formed histories, so
+"first" is immaterial), and keeps exactly the rest. -/
+theorem expire_exact {par : Nat → Nat} (hpar : ∀ i, par i ≠ i) {s : Pool} (h : OReach par s) (e : Nat) :
+    (∀ b, b ∈ (cleanExpired s e).2 ↔
+      ∃ l, l ∈ s.leaders ∧ needClean s.pool l e = true ∧ Desc s.pool l b) ∧
+    (∀ b, b ∈ (cleanExpired s e).1.pool ↔
+      b ∈ s.pool ∧ ¬ ∃ l, l ∈ s.leaders ∧ needClean s.pool l e = true ∧ Desc s.pool l b) :=
+  cleanExpired_exact (orphan_inv hpar h) e
+
 /-- non-vacuity: 1 ← 2 ← 3, 1 ← 4, 7 ← 8 pooled out of order; releasing 1's parent 0 returns
 the four descendants and keeps 8 -/
 def exPool : Pool :=
@@ -73,6 +84,7 @@ def exPool : Pool :=
 example : exPool.leaders = [0, 7] := by decide
 example : ((removeByParent exPool 0).2.map (·.id)) = [1, 2, 4, 3] ∧
     ((removeByParent exPool 0).1.pool.map (·.id)) = [8] ∧ (removeByParent exPool 0).1.leaders = [7] := by decide
+example : ((cleanExpired exPool 7).2.map (·.id)) = [1, 2, 4, 3, 8] ∧ (cleanExpired exPool 6).2 = [] := by decide
 example : OReach (fun i => match i with | 3 => 2 | 8 => 7 | 1 => 0 | 4 => 1 | 2 => 1 | _ => i + 100) exPool :=
   .insert _ (.insert _ (.insert _ (.insert _ (.insert _ .empty (by decide)) (by decide)) (by decide)) (by decide)) (by decide)
 
